@@ -44,37 +44,71 @@ def gen_world_plan(rng, backends=BACKENDS, **synth_kw):
 
 
 class World:
-    def __init__(self, plan):
+    def __init__(self, plan, fresh=True, slot=0):
+        """``fresh=False`` adds a second product to the running world (slot 1) without
+        resetting storage or the event log"""
         self.plan = plan
-        self.backend = plan["backend"]
         self.root = boot.scratch_root()
+        self.slot = slot
         disk.install()
         simfs.register()
-        self.reset_storage()
+        if fresh:
+            self.reset_storage()
         self.product = synth.build(plan)
-        self.dirs = list(plan.get("dirs", []))
+        self._place(plan["backend"], list(plan.get("dirs", [])), self.product.files)
+
+    def _place(self, backend, dirs, files):
+        self.backend = backend
+        self.dirs = dirs
         sub = "/".join(self.dirs + ["prod"])
         self.sub = sub
+        tag = "" if self.slot == 0 else str(self.slot)
         if self.backend in ("simfs", "simfs_opt"):
-            self.base = "/w0/" + sub
-            for name, data in self.product.files.items():
+            self.simfs_world = "/w0" + tag
+            self.base = self.simfs_world + "/" + sub
+            for name, data in files.items():
                 simfs.FILES[self.base + "/" + name] = data
         elif self.backend in LOCAL:
-            self.base = self.root + "/w/" + sub
+            self.base = self.root + "/w/" + (("s" + tag + "/") if tag else "") + sub
             with quiet():
-                os.makedirs(self.base)
-                for name, data in self.product.files.items():
+                os.makedirs(self.base, exist_ok=True)
+                for name, data in files.items():
                     with disk.real_open(self.base + "/" + name, "wb") as f:
                         f.write(data)
         elif self.backend == "memory":
             import fsspec
 
-            self.base = "/cav/" + sub
+            self.base = "/cav" + tag + "/" + sub
             fs = fsspec.filesystem("memory")
-            for name, data in self.product.files.items():
+            for name, data in files.items():
                 fs.pipe_file(self.base + "/" + name, data)
         else:
             raise ValueError(self.backend)
+
+    def relocate(self, backend, dirs, scramble_old=True):
+        """copy everything in the product directory (index files included) to another location /
+        store; the old location keeps the same file names but gets *different* image content, so
+        that a read going to the old place cannot go unnoticed.  The world then lives at the new
+        location."""
+        files = {name: self.read_file(name) for name in self.listing()}
+        old = (self.backend, self.dirs, self.base, self.slot)
+        if scramble_old:
+            other = dict(self.plan, data_seed=self.plan["data_seed"] + 7919)
+            decoy = synth.build(other)
+            for name in self.product.images:
+                self.write_file(name, decoy.files[name])
+        self.slot = 2
+        self._place(backend, dirs, files)
+        return old
+
+    def rewrite_in_place(self, plan):
+        """replace the product by another one (same location)"""
+        for name in list(self.listing()):
+            self.remove_file(name)
+        self.plan = plan
+        self.product = synth.build(plan)
+        for name, data in self.product.files.items():
+            self.write_file(name, data)
 
     # ------------------------------------------------------------------ storage reset
     def reset_storage(self):
@@ -121,7 +155,7 @@ class World:
         raise ValueError(b)
 
     def storage_options(self):
-        return {"prefix": "/w0"} if self.backend == "simfs_opt" else None
+        return {"prefix": self.simfs_world} if self.backend == "simfs_opt" else None
 
     def options(self, **kw):
         """backend_options for open_alos2; keys with value None are omitted"""
